@@ -197,6 +197,8 @@ def _key(t):
 
 
 def _dep_cell(d, r1, r2):
+    if R.env_int("VP_REL", 2) == 1 and r2 != r1:      # one released version only: r2 is not a free variable
+        return False
     k = R.env_int("VP_WHICH")
     if k is None:
         return True
@@ -248,7 +250,8 @@ def deprecated_from_rule(d: str, r1: str, r2: str, hv: str, ov: str, in_lib: boo
     if in_lib:
         e.attributes[HedKey.InLibrary] = "lib"
     # the other library's list holds the versions the home library does NOT offer: reading it changes the verdict
-    issues = _with_released({home: [_ver(r1), _ver(r2)], other: [_ver(ov), _ver(hv)]},
+    rel = [_ver(r1), _ver(r2)] if R.env_int("VP_REL", 2) == 2 else [_ver(r1)]
+    issues = _with_released({home: rel, other: [_ver(ov), _ver(hv)]},
                             lambda: V.tag_is_deprecated_check(schema, e, HedKey.DeprecatedFrom))
     expected = ref.deprecated_from_expect(d, [(_ver(r1), _key(r1)), (_ver(r2), _key(r2))], _key(hv), 0)
     return _agree(issues, expected)
@@ -520,14 +523,15 @@ HARNESSES = [
         oracle="models/compliance_ref.py placeholder_expect", stubs=[_STUB_ENTRY], outside="a bare '#' root node"),
     R.H("deprecated_from_rule", [_AV + "tag_is_deprecated_check",
                                  "hed.schema.schema_validation_util.schema_version_for_library"],
-        quick=R.tier(cells=R.product_cells(R.int_cells("VP_CFG", 0, 2), R.int_cells("VP_WHICH", 0, 2)),
-                     env={"VP_N": 5, "VP_M": 1}, timeout=170,
-                     bound="deprecatedFrom = every Unicode text of 1..5 characters; two released versions, the "
-                           "schema version and the partner version each d.d.d (major 1-9, minor and patch 0-9); standard / "
-                           "stand-alone library / partnered schema; element with or without inLibrary"),
+        quick=R.tier(cells=R.product_cells([{"VP_CFG": 0}, {"VP_CFG": 2}], [{"VP_WHICH": 0}, {"VP_WHICH": 2}]),
+                     env={"VP_N": 5, "VP_M": 1, "VP_REL": 1}, timeout=400, path_timeout=40,
+                     bound="deprecatedFrom = every Unicode text of 1..5 characters; one released version, the "
+                           "schema version and the partner version each d.d.d (major 1-9, minor and patch 0-9); "
+                           "standard schema / partnered library schema; element with or without inLibrary"),
         thorough=R.tier(cells=R.product_cells(R.int_cells("VP_CFG", 0, 2), R.int_cells("VP_WHICH", 0, 2)),
                         env={"VP_N": 6, "VP_M": 2, "VP_MAJOR0": 1}, timeout=1100, path_timeout=60,
-                        bound="as quick with major 0-9 and minor version numbers of 1..2 digits (d.dd.d), "
+                        bound="as quick with two released versions, a stand-alone library schema as third "
+                              "configuration, major 0-9 and minor version numbers of 1..2 digits (d.dd.d), "
                               "deprecatedFrom <= 6 characters"),
         what="SCHEMA_DEPRECATION_ERROR iff the value is not a released version of the element's own library or is "
              "not older than that library's version in the schema (partner version for standard elements of a "
@@ -535,7 +539,7 @@ HARNESSES = [
         oracle="models/compliance_ref.py deprecated_from_expect (own numeric version comparison)",
         stubs=[_STUB_ENTRY, _STUB_VERSIONS],
         outside="pre-release / build suffixes in versions; more than two released versions; merged multi-library "
-                "headers"),
+                "headers; the real cache directory listing"),
     R.H("deprecated_children_rule", [_AV + "tag_is_deprecated_check"],
         quick=R.tier(env={}, timeout=170,
                      bound="deprecatedFrom d.0.0 (any digit d) released or not, schema 5.0.0; tag entry with 0..2 "
